@@ -12,6 +12,8 @@ SETTLED = ("WaitForStream", "WaitForFunc", "EOF")
 INTERIOR_PREFIXES = ("std::sync::Mutex", "std::sync::RwLock", "std::cell::RefCell", "std::cell::Cell",
                      "std::sync::atomic", "std::sync::mpsc", "std::sync::Condvar")
 
+STREAM_FILES = ("src/stream.rs", "src/circular_buffer.rs")
+
 _cache = {}
 
 
@@ -160,6 +162,9 @@ class Effects:
                 self.progress[bb] = "call %s with &mut self state at %s" % (f.get("q"), body.where(bb))
                 continue
             if any(is_self_shared_ref(body, e) for e in argexprs):
+                # stream/buffer accessors lock internally but change nothing observable
+                if loc and all(facts.body(q).file in STREAM_FILES for q in loc):
+                    continue
                 if any(q in interior_fns for q in loc) or any(q.startswith(INTERIOR_PREFIXES) for q in qs):
                     self.progress[bb] = "call %s (interior mutability) at %s" % (f.get("q"), body.where(bb))
                     continue
